@@ -34,6 +34,25 @@ EXTRA = {
 	'C05': " run_multiple_trials is also run with 30 trials on instances where a per-trial seed repeats.",
 	'C20': " Non-scalar defaults of the node normalisers; random nested dicts for the key rewriters (reference implementations, no sharing with the argument).",
 }
+# rounds 11-12
+EXTRA2 = {
+	'C02': " Demand lists given as NumPy arrays that start with zero-demand periods.",
+	'C04': " A line shortened after a first simulation is simulated again (orders from the network as it is now); one Policy object shared by two products.",
+	'C07': " Stale demand moments next to a demand source; an instance with demand in the thousands (inventory grid of more than 2000 points).",
+	'C08': " Demand-bound constants of 0; the four-stage shared-supplier instance under all 24 labellings; dict-valued and stage-dependent parameters of the serial optimiser.",
+	'C09': " Large Poisson means (up to 1000) against direct summation; special parameter values of every closed-form family.",
+	'C10': " A pmf dict revised in place between two calls; EOQ with disruptions whose exact optimum lies far above the approximate one.",
+	'C11': " Zero-dimensional array singletons; cost figures of the order of 1e7-1e9 with small savings (no relative tolerance in the minimum).",
+	'C14': " r_q_optimal_r_for_q honours tolerances tighter than the default; Poisson cost at mean lead-time demands up to 1300 against the defining sum.",
+	'C15': " Negative reorder points in every third (s,S) case; stale demand moments next to the demand source in every second serial case.",
+	'C16': " Probability vectors whose floating-point sum falls a hair above as well as below 1.",
+	'C17': " sim_io.write_instance_and_states (debug save) leaves the saved network untouched.",
+	'C18': " supply_type arguments to the builders make no difference.",
+	'C19': " Golden-section search on kinks thousands of times steeper on one side; coordinate descent on coupled non-smooth objectives started at their minimiser.",
+	'C20': " dict_match at coarse relative / absolute tolerances on both sides of the symmetric rule; exact integer keys beyond 2^53.",
+}
+for pid_, extra_ in EXTRA2.items():
+	EXTRA[pid_] = EXTRA.get(pid_, '') + extra_
 for pid_, extra_ in EXTRA.items():
 	if pid_ in CHECKS:
 		CHECKS[pid_]['text'] = CHECKS[pid_]['text'].rstrip() + extra_
